@@ -57,39 +57,6 @@ def depth_table(tokens):
     return out
 
 
-def fitting_range(rng, al, depths, sl):
-    """a range whose two ends lie as deep as the open sides of the slice ask for (depth(from) - open_start ==
-    depth(to) - open_end >= 0): the places where a slice of these open depths can go at all — half of the time one whose ends
-    lie in different subtrees below the level the slice is inserted at (the replace has to join nodes around the slice), if
-    there is one.  `al`: the pair-aligned positions of the document; None if there is no such range"""
-    by_depth = {}
-    for p in al:
-        by_depth.setdefault(depths[p], []).append(p)
-    starts = [p for p in al if depths[p] >= sl.open_start and (depths[p] - sl.open_start + sl.open_end) in by_depth]
-    rng.shuffle(starts)
-    want_cross = rng.random() < 0.5
-    fallback = None
-    for f in starts[:6]:
-        ends = [p for p in by_depth[depths[f] - sl.open_start + sl.open_end] if p >= f]
-        if not ends:
-            continue
-        if want_cross:
-            level = depths[f] - sl.open_start
-            cross, low, last = [], depths[f], f
-            for p in ends:
-                low = min([low] + depths[last:p + 1])
-                last = p
-                if low < level:
-                    cross.append(p)
-            if cross:
-                return f, rng.choice(cross)
-            fallback = fallback or (f, rng.choice(ends))
-            continue
-        near = [p for p in ends if p <= f + 8]
-        return f, rng.choice(near if near and rng.random() < 0.4 else ends)
-    return fallback
-
-
 def is_norm(json_node):
     kids = json_node.get("content") or []
     for a, b in zip(kids, kids[1:]):
@@ -171,7 +138,7 @@ def run(ctx):
         f2, t2 = gen.random_range(rng, d)
         if (ent is not None and rng.random() < 0.9) or rng.random() < 0.1:
             # a place the slice's open depths fit (a pasted slice goes where it can go, not anywhere)
-            fit = fitting_range(rng, tokens_of(d, aligned=True), depths, other) if len(depths) == size + 1 else None
+            fit = gen.fitting_range(rng, tokens_of(d, aligned=True), depths, other) if len(depths) == size + 1 else None
             if fit is not None:
                 f2, t2 = fit
                 ctx.count("replace_at_a_depth_fitting_range")
